@@ -89,6 +89,9 @@ def main():
     else:
         pairs = hole_pairs(chk, texts, 0, 200)
     chk.extra["hole_positions"] = len(pairs)
+    from checks import pycommon
+    pycommon.indent_skeleton(chk, o, 4 if chk.quick else 6, pycommon.CORE_OPTS, wall=120 if chk.quick else 1500, tokens_only=True)
+    pycommon.indent_skeleton(chk, o, 2 if chk.quick else 3, pycommon.RICH_OPTS, wall=120 if chk.quick else 1500, tokens_only=True, label="rich")
     chk.run("A-holes k=1", harness.A_harness(holes_textfn(pairs), do_tokens=True, do_parse=False, path_oracles=o),
             f"{len(pairs)} (seed, position) pairs with one symbolic character over Python layout seeds", wall=150 if chk.quick else 1800, vacuity=("ok",))
     if not chk.quick:
